@@ -178,7 +178,24 @@ def _roundtrip(fmt):
                             "got %r" % (what, ehg, ohg), key="hypergraph-metadata")
             return loaded, what
 
-        round_trip("")
+        first_loaded, _ = round_trip("")
+        # objects loaded earlier are independent of later loads: edit the metadata of the loaded
+        # object in place (items without metadata on purpose: a default dict shared between
+        # loads would carry the edit over) and take the original through the format again
+        edited = False
+        for n in sorted(T["nodes"], key=repr):
+            if not T["nodes"][n]:
+                first_loaded.set_attr_to_node_metadata(n, "zq", 1)
+                edited = True
+                break
+        for key in T["order"]:
+            if not T["edges"][key][1]:
+                k.ad.r_set_attr_edge(first_loaded, k.ad.record_of_key(key, 1), "zq", 1)
+                edited = True
+                break
+        if edited:
+            round_trip(" (again, after an in-place metadata edit on the object loaded before)")
+            ctx.label("reload_after_editing_first_load")
         # second round trip of the same object (every case, so that these sub-cases are not
         # left to chance): the hypergraph metadata replaced wholesale through
         # set_hypergraph_metadata (the implementation-set 'weighted'/'type' fields are gone)
